@@ -10,16 +10,25 @@ let pset b = text_of_bset (Some b)
 let ids_of_text s = if s = "-" then [] else Stdlib.List.map (fun x -> n_of_int (int_of_string x)) (split_on ',' s)
 let pids l = if l = [] then "-" else Stdlib.String.concat "," (Stdlib.List.map (fun i -> string_of_int (int_of_n i)) l)
 let popt = function None -> "-" | Some i -> string_of_int (int_of_n i)
+let unesc s =
+  let b = Stdlib.Buffer.create 16 in
+  let n = Stdlib.String.length s in
+  let i = ref 0 in
+  while !i < n do
+    if s.[!i] = '%' && !i + 2 < n + 0 && !i + 2 <= n - 1 then (Stdlib.Buffer.add_char b (Stdlib.Char.chr (hexval s.[!i+1] * 16 + hexval s.[!i+2])); i := !i + 3)
+    else (Stdlib.Buffer.add_char b s.[!i]; incr i)
+  done; Stdlib.Buffer.contents b
+let rec nat_of_int i = if i <= 0 then O else S (nat_of_int (i - 1))
 let errname e = match int_of_n e with 0 -> "0" | 1 -> "EINVAL" | 2 -> "ENOENT" | _ -> "EOTHER"
 
-let cur : (dump * obj option) option ref = ref None
+let cur : (dump * obj option * Stdlib.String.t array) option ref = ref None
 let lastq = ref ""
 
 let oid_of (o : obj) = (match o with Obj (d, _, _, _, _) -> d.o_id)
 let find_tree tree i = Stdlib.List.find_opt (fun o -> int_of_n (oid_of o) = i) (nflatten tree)
 let getd (d : dump) i = Stdlib.List.nth_opt d.t_objs i
 
-let answer (d : dump) (tree : obj option) (q : Stdlib.String.t) (r : Stdlib.String.t) : Stdlib.String.t * Stdlib.String.t =
+let answer (d : dump) (tree : obj option) (raws : Stdlib.String.t array) (q : Stdlib.String.t) (r : Stdlib.String.t) : Stdlib.String.t * Stdlib.String.t =
   (* returns (model answer, spec verdict) *)
   let w = words q and rw = words r in
   let need_tree f = match tree with Some t -> f t | None -> ("notree", "FAIL tree-of-dump") in
@@ -86,7 +95,6 @@ let answer (d : dump) (tree : obj option) (q : Stdlib.String.t) (r : Stdlib.Stri
            let l = get_closest_objs d src max in
            let m = Stdlib.Printf.sprintf "%d %s" (Stdlib.List.length l) (pids (Stdlib.List.map (fun (o : dobj) -> o.o_id) l)) in
            let v = (match rw with
-             | ["crash"] -> "FAIL closest-objs-negative-depth"
              | [_; cids] -> if src.o_cs = None then "ok" else verdict "closest_sorted_by_ancestor" (closest_spec d src max (ids_of_text cids))
              | _ -> "FAIL closest-format") in
            (m, v)
@@ -101,17 +109,34 @@ let answer (d : dump) (tree : obj option) (q : Stdlib.String.t) (r : Stdlib.Stri
             else verdict "cpuset_nodeset_locality" (from_nodeset_spec nl set c)
         | _ -> "FAIL nodeset-rc") in
       ("0 " ^ pset res, v)
-  | ["same_locality"; a; ty] ->
+  | "same_locality" :: a :: ty :: rest ->
       (match getd d (int_of_string a) with
        | Some src ->
            let t = n_of_int (int_of_string ty) in
-           let (ro, e) = get_obj_with_same_locality d src t in
+           let arg k = (match Stdlib.List.nth_opt rest k with Some x when x <> "-" -> Some (Stdlib.String.lowercase_ascii (unesc x)) | _ -> None) in
+           let st = arg 0 and np = arg 1 in
+           let fl = (match Stdlib.List.nth_opt rest 2 with Some x -> n_of_int (int_of_string x) | None -> N0) in
+           (* obj->subtype / obj->name of the dump, compared case-insensitively as strcasecmp / strncasecmp do *)
+           let field (o : dobj) key =
+             let h = kv_tbl (split_on ' ' raws.(int_of_n o.o_id)) in
+             (match Stdlib.Hashtbl.find_opt h key with
+              | Some v when v <> "-" -> Some (Stdlib.String.lowercase_ascii (unesc (Stdlib.String.sub v 1 (Stdlib.String.length v - 2))))
+              | _ -> None) in
+           let mt (o : dobj) =
+             (match st with None -> true | Some x -> (match field o "st" with Some y -> x = y | None -> false)) &&
+             (match np with None -> true | Some x -> (match field o "nm" with
+                | Some y -> Stdlib.String.length y >= Stdlib.String.length x && Stdlib.String.sub y 0 (Stdlib.String.length x) = x
+                | None -> false)) in
+           let (ro, e) = get_obj_with_same_locality d src t mt fl in
            let m = (match ro with Some o -> string_of_int (int_of_n o.o_id) | None -> "-") ^ " " ^ errname e in
-           let v = if (is_normal src.o_type || is_memory src.o_type) && (is_normal t || is_memory t) then
-               (match rw with
-                | [x; _] -> verdict "same_locality_sound_complete" (same_locality_spec d src t (if x = "-" then None else Some (n_of_int (int_of_string x))))
-                | _ -> "FAIL same-locality-format")
-             else "ok" in
+           let cr = (match rw with x :: _ -> if x = "-" then None else Some (n_of_int (int_of_string x)) | [] -> None) in
+           let v =
+             if int_of_n fl <> 0 then (if cr = None then "ok" else "FAIL same-locality-flags")
+             else if (is_normal src.o_type || is_memory src.o_type) && (is_normal t || is_memory t) then
+               verdict "same_locality_sound_complete" (same_locality_spec d src t mt cr)
+             else if is_io src.o_type && (int_of_n src.o_type = 17 || int_of_n src.o_type = 18) && (int_of_n t = 17 || int_of_n t = 18) then
+               verdict "same_locality_io" (same_locality_io_spec d src t mt cr)
+             else (if cr = None then "ok" else "FAIL same-locality-incompatible-types") in
            (m, v)
        | None -> ("skip", "ok"))
   | ["type_depth"; ty] ->
@@ -125,6 +150,42 @@ let answer (d : dump) (tree : obj option) (q : Stdlib.String.t) (r : Stdlib.Stri
       let dd = z_of_int (int_of_string dep) in
       let m = string_of_int (int_of_z (get_depth_type d dd)) in
       let v = (match rw with [x] -> verdict "type_depth_inverse" (depth_type_spec d dd (z_of_int (int_of_string x))) | _ -> "ok") in
+      (m, v)
+  | ["type_depth_attr"; ty; gd; mode] ->
+      let t = int_of_string ty in
+      let g = if mode = "0" then Some (z_of_dec gd) else None in
+      let m = string_of_int (int_of_z (get_type_depth_with_attr d (z_of_int t) g)) in
+      let v = (match rw with
+        | [x] when t >= 0 && t < int_of_n hWLOC_OBJ_TYPE_MAX -> verdict "type_depth_with_attr" (type_depth_attr_spec d (n_of_int t) g (z_of_int (int_of_string x)))
+        | _ -> "ok") in
+      (m, v)
+  | ["sscanf_depth"; _] ->
+      (* R <err> <type> <depth> | <err of hwloc_type_sscanf> <its type> <its group depth>: the model composes the depth *)
+      (match rw with
+       | [err; ty; dep; "|"; err2; ty2; gd] ->
+           if int_of_string err2 < 0 then ((err2 ^ " -1 -99 | " ^ err2 ^ " " ^ ty2 ^ " " ^ gd), (if int_of_string err < 0 then "ok" else "FAIL sscanf-as-depth-accepts"))
+           else begin
+             let g = Some (z_of_dec gd) in
+             let mdep = int_of_z (get_type_depth_with_attr d (z_of_int (int_of_string ty2)) g) in
+             (Stdlib.Printf.sprintf "0 %s %d | %s %s %s" ty2 mdep err2 ty2 gd,
+              if err = "0" && ty = ty2 && type_depth_attr_spec d (n_of_int (int_of_string ty2)) g (z_of_int (int_of_string dep)) then "ok" else "FAIL sscanf-as-depth")
+           end
+       | _ -> ("format", "FAIL sscanf-depth-format"))
+  | ["next_child"; a] ->
+      (match getd d (int_of_string a) with
+       | Some o ->
+           let l = iter_children d (nat_of_int (Stdlib.List.length d.t_objs + 1)) o None in
+           let v = (match rw with [cids] when not (Stdlib.String.contains cids '!') -> verdict "next_child_order" (next_child_spec d o (ids_of_text cids)) | _ -> "FAIL next-child-loop") in
+           (pids (Stdlib.List.map (fun (o : dobj) -> o.o_id) l), v)
+       | None -> ("skip", "ok"))
+  | ["type_kind"; ty] ->
+      let t = int_of_string ty in
+      if t < 0 then ("0 0 0 0 0 0", "ok") else
+      let n = n_of_int t in let b x = if x then "1" else "0" in
+      (Stdlib.String.concat " " [b (is_normal n); b (is_io n); b (is_memory n); b (is_cache n); b (is_dcache n); b (is_icache n)], "ok")
+  | ["memory_parents_depth"] ->
+      let m = (match get_memory_parents_depth d with Some z -> string_of_int (int_of_z z) | None -> "undef") in
+      let v = (match rw with [x] -> verdict "memory_parents_depth" (memory_parents_spec d (z_of_int (int_of_string x))) | _ -> "FAIL format") in
       (m, v)
   | ["type_or_below"; ty] -> ((match get_type_or_below_depth d (n_of_int (int_of_string ty)) with Some z -> string_of_int (int_of_z z) | None -> "undef"), "ok")
   | ["type_or_above"; ty] -> ((match get_type_or_above_depth d (n_of_int (int_of_string ty)) with Some z -> string_of_int (int_of_z z) | None -> "undef"), "ok")
@@ -171,7 +232,7 @@ let () =
   read_blocks stdin
     (fun lines ->
        let p = parse_dump_lines lines in
-       cur := Some (p.pd, tree_of_dump p.pd);
+       cur := Some (p.pd, tree_of_dump p.pd, p.raw_objs);
        (* how many dumps meet the hypotheses of the theorems (non-vacuity statistics) *)
        let hyp = (match tree_of_dump p.pd with
          | Some t ->
@@ -186,8 +247,8 @@ let () =
          print_endline l;
          let r = Stdlib.String.sub l 2 (Stdlib.String.length l - 2) in
          (match !cur with
-          | Some (d, tree) when r <> "bad" && r <> "notopo" && r <> "unknown" ->
-              let (m, v) = (try answer d tree !lastq r with e -> ("exception " ^ Stdlib.Printexc.to_string e, "FAIL driver-exception")) in
+          | Some (d, tree, raws) when r <> "bad" && r <> "notopo" && r <> "unknown" ->
+              let (m, v) = (try answer d tree raws !lastq r with e -> ("exception " ^ Stdlib.Printexc.to_string e, "FAIL driver-exception")) in
               print_endline ("M " ^ m); print_endline ("S " ^ v)
           | _ -> print_endline ("M " ^ r); print_endline "S ok")
        end
